@@ -163,11 +163,11 @@ def document(draw):
             keys.insert(draw(st.integers(0, len(keys))), variants[0])
     pval = st.one_of(
         st.text(alphabet='abXY09 \t;{}\',.:=-_/+*()[]<>|@!?~^&%$"', max_size=12).map(lambda s: s.strip()).filter(
-            lambda s: not Y.DOUBLE_BRACE.search(s) and not s.endswith('\\') and s.count('"') % 2 == 0),
+            lambda s: not s.endswith('\\') and s.count('"') % 2 == 0),
         st.sampled_from(['', '54579', 'beta gamma delta', '"quoted value"', '{1 2 3}', 'a\tb']),
         # a comment mark inside double quotes is part of the value (round 9)
         st.sampled_from(['"r #2 (red)"', 'x "#1" y "#2"', 'filter "#"', '"# not a comment"']),
-        st.text(alphabet='ab #;{}\t.', min_size=1, max_size=8).filter(lambda t: '#' in t and not Y.DOUBLE_BRACE.search(t)).map(lambda t: 'v "%s"' % t))
+        st.text(alphabet='ab #;{}\t.', min_size=1, max_size=8).filter(lambda t: '#' in t).map(lambda t: 'v "%s"' % t))
     pairs = [[k, draw(pval)] for k in keys]
     return dict(enums=[[k, v] for k, v in enums.items()], tables=tables, pairs=pairs)
 
@@ -266,7 +266,7 @@ class R(object):
                 else:
                     line += self.ws(1)
             line += tok
-        if len(Y.DOUBLE_BRACE.findall(line.replace('\\\n', ' '))) != ndb or (line.rstrip().endswith('\\')):
+        if Y.double_brace_tokens(line.replace('\\\n', ' ')) != ndb or (line.rstrip().endswith('\\')):
             if force_quote:
                 raise AssertionError('renderer cannot avoid an accidental {{}}: %r' % line)
             return self.row_line(t, r, force_quote=True)
